@@ -467,6 +467,114 @@ def path_variants(rng, s):
 
 # ------------------------------------------------------------------ correspondence
 
+# ------------------------------------------------------------------ the source translation (Generated/RRuleStrKernels.lean)
+
+def gen_correspondence(ctx, rules, rng):
+    """the definitions translated from `_parse_rfc` (prefix: compatible switch, TZID pre-scan, upper, empty check, unfold loop /
+    split) and `_parse_date_value` (parameter loop, zone attach) are run in the driver and compared with the VERY STATEMENTS
+    they were translated from, executed by the interpreter (compiled from the same AST nodes of the working tree)"""
+    import ast, os, re, sys
+    import vlib, translate_str as TS
+    import dateutil.tz as TZ
+    loc = TS.locate(os.path.join(vlib.REPO, "src", "dateutil"))
+    def frag(stmts):
+        return compile(ast.fix_missing_locations(ast.Module(body=list(stmts), type_ignores=[])), "<rrule.py statements>", "exec")
+    c_prefix, c_parms, c_attach = frag(loc["prefix"]), frag(loc["parms"]), frag(loc["attach"])
+    def base_ns():
+        return {"re": re, "parser": sys.modules.get("dateutil.parser") or __import__("dateutil.parser"), "__package__": "dateutil", "__name__": "dateutil.rrule",
+                "self": None}
+    # 1. prefix
+    texts = []
+    for r, s_, _ in rules[:ctx.budget(150, 1500)]:
+        t = s_ + rng.choice(["", "", "\nEXDATE:19970903T090000", "\nRDATE:19970910T090000"])
+        if rng.random() < 0.6:
+            t = spell_date_lines(rng, t, tzid=rng.choice(["Foo/Bar", "America/New_York", "x", "a b", "Eastern Standard Time", "Z=1", "tzid=inner", "Foo/BAR"]))
+        if rng.random() < 0.7:
+            t = fold(rng, t, rng.random() < 0.5)
+        if rng.random() < 0.3:
+            k = rng.randint(0, len(t))
+            t = t[:k] + rng.choice([" ", "\n ", "\r\n ", "\r ", "\t", "TZID=", "tzid=q;", ":", ";", "\n", "\x0b", "\x0c", "\x1c", "\x1d", "\x1e", "\x1f", " \n  "]) + t[k:]
+        texts.append(t)
+    alpha = " \t\r\n\n  ;:=TZIDtzidaB\x0b\x1c"
+    for _ in range(ctx.budget(150, 1500)):
+        texts.append("".join(rng.choice(alpha) for _ in range(rng.randint(0, 24))))
+    texts += ["", " ", "\n", " \n x", "\n x", "a\n \n b", "a\n b\n  c \n d", "TZID=a:TZID=B;tzid=A:", "x;TZID=:y", "TZID=a", "TZID=a\n b:c", "TZID=a\r\n b:c", "TZID=a\r b:c"]
+    reqs, exp = [], []
+    for t in texts:
+        for flags in rng.sample([(0, 0, 0), (1, 0, 0), (0, 1, 0), (0, 0, 1), (1, 1, 0)], 2):
+            ns = base_ns(); ns.update(s=t, unfold=bool(flags[0]), forceset=bool(flags[1]), compatible=bool(flags[2]))
+            try:
+                exec(c_prefix, ns)
+                e = ("ok", bool(ns["forceset"]), bool(ns["unfold"]), dict(ns["TZID_NAMES"]), ns["s"], list(ns["lines"]))
+            except Exception as ex:
+                e = "err " + exc_kind(ex)
+            reqs.append("rrsgen.prefix %d%d%d %s" % (flags + (hexs(t),))); exp.append(e)
+    def unhex(h):
+        return "" if h == "." else bytes.fromhex(h).decode()
+    def parse_prefix(g):
+        if not g.startswith("ok "):
+            return g
+        f = g.split(" ")
+        names = {}
+        for pair in ([] if f[3] == "[]" else f[3][1:-1].split(",")):
+            k, v = pair.split(":"); names[unhex(k)] = unhex(v)          # a later pair overwrites an earlier one, like dict()
+        lines = [] if f[5] == "[]" else [unhex(x) for x in f[5][1:-1].split(",")]
+        return ("ok", f[1] == "1", f[2] == "1", names, unhex(f[4]), lines)
+    got = ctx.driver(reqs)
+    for q, e, g in zip(reqs, exp, got):
+        if parse_prefix(g) != e:
+            ctx.mismatch("rrsgen.prefix (translated _parse_rfc prefix vs the statements themselves)", q, e, g)
+    ctx.traces += len(reqs); ctx.count("gen_prefix_cases", len(reqs))
+    # 2. the parameter loop
+    class Mark(object):
+        def __init__(self, how, name): self.how, self.name = how, name
+    class Mapping(object):
+        def get(self, k, default=None): return Mark("m", k)
+    pool = ["TZID=X", "TZID=Y", "TZID=NOPE", "VALUE=DATE-TIME", "VALUE=DATE", "FOO=1", "TZID=", "TZID=ATZID=X", "XTZID=Y", "TZID=X;", "tzid=X", "", "VALUE=DATE-TIME "]
+    reqs, exp = [], []
+    saved = TZ.gettz
+    try:
+        TZ.gettz = lambda name=None: Mark("g", name)
+        for _ in range(ctx.budget(300, 3000)):
+            parms = [rng.choice(pool) for _ in range(rng.randint(0, 4))]
+            table = {k: rng.choice(["X", "x", "Foo/Bar", "a b"]) for k in rng.sample(["X", "Y", "", "ATZID=X", "X;"], rng.randint(0, 3))}
+            kind = rng.choice(["none", "callable", "mapping", "other"])
+            tzids = {"none": None, "callable": (lambda n: Mark("c", n)), "mapping": Mapping(), "other": object()}[kind]
+            ns = base_ns(); ns.update(parms=parms, rule_tzids=table, tzids=tzids, date_value="", ignoretz=False, tzinfos=None)
+            try:
+                exec(c_parms, ns)
+                z = ns["TZID"]
+                e = "ok %s %d" % ("-" if z is None else "l" + z.how + hexs(z.name), int(bool(ns["value_found"])))
+            except Exception as ex:
+                e = "err " + exc_kind(ex)
+            reqs.append("rrsgen.parms %s [%s] [%s]" % (kind, ",".join(hexs(k) + ":" + hexs(v) for k, v in table.items()), ",".join(hexs(x) for x in parms)))
+            exp.append(e)
+    finally:
+        TZ.gettz = saved
+    got = ctx.driver(reqs)
+    for q, e, g in zip(reqs, exp, got):
+        if e != g:
+            ctx.mismatch("rrsgen.parms (translated _parse_date_value parameter loop vs the statements themselves)", q, e, g)
+    ctx.traces += len(reqs); ctx.count("gen_parms_cases", len(reqs))
+    # 3. attaching the zone: all nine combinations
+    zones = {"-": None, "t": datetime.timezone.utc, "lc" + hexs("X"): datetime.timezone(datetime.timedelta(hours=1), "X")}
+    back = {id(v): k for k, v in zones.items()}
+    reqs, exp = [], []
+    for a, za in zones.items():
+        for b, zb in zones.items():
+            ns = base_ns(); ns.update(TZID=za, date=datetime.datetime(1997, 9, 2, 9, 0, tzinfo=zb))
+            try:
+                exec(c_attach, ns)
+                e = "ok " + back[id(ns["date"].tzinfo)]
+            except Exception as ex:
+                e = "err " + exc_kind(ex)
+            reqs.append("rrsgen.attach %s %s" % (a, b)); exp.append(e)
+    got = ctx.driver(reqs)
+    for q, e, g in zip(reqs, exp, got):
+        if e != g:
+            ctx.mismatch("rrsgen.attach (translated zone attach statement vs the statement itself)", q, e, g)
+    ctx.traces += len(reqs)
+
 def correspondence(ctx):
     basecorr.run(ctx)
     rng = ctx.subrng("corr")
@@ -489,6 +597,7 @@ def correspondence(ctx):
             ctx.c13_str_mismatch_rules.append({"rule": rl[2]})
             ctx.mismatch("rrs.str", q, bytes.fromhex(e[3:]).decode() if e[3:] != "." else "", bytes.fromhex(g[3:]).decode() if g.startswith("ok ") and g[3:] != "." else g)
     ctx.traces += len(reqs)
+    gen_correspondence(ctx, rules, ctx.subrng("corr-gen"))
     # the same two ops under an ambient first weekday (the model's str/parse do not depend on it; _wkst does)
     import calendar
     saved_fwd = calendar.firstweekday()
